@@ -125,6 +125,8 @@ PROP_FAMILIES = {
 
 
 def plan(pid, tier, seed):
+    if pid in ('C17', 'C18'):
+        return {'engines': [], 'conformance': [{'kind': 'shapes', 'variant': 'shapes', 'params': {}, 'family': 's'}]}
     if pid == 'C19':
         builds = ['all-dev', 'nofin-rel'] if tier == 'quick' else ['all-dev', 'all-rel', 'nofin-rel', 'default-dev']
         conf = []
@@ -153,6 +155,8 @@ def plan(pid, tier, seed):
 
 
 LEVEL = {p: 'model_checking' for p in GRAPH_PROPS + ['C19']}
+LEVEL['C17'] = 'exploration'
+LEVEL['C18'] = 'exploration'
 
 
 def evidence(pid, tier, seed, plan_, engines, confs, nviol, nknown, wall):
@@ -171,9 +175,11 @@ def evidence(pid, tier, seed, plan_, engines, confs, nviol, nknown, wall):
         'traces_validated_against_impl': runs,
         'samples': samples or [{'note': 'no sample'}],
         'evaluations': runs,
-        'distinct_nontrivial': len({json.dumps(c['params'], sort_keys=True) + c['variant'] for c in confs}),
-        'rule': 'one evaluation = one recorded history of the real crate (random, scripted or replayed TLC behaviour) validated event by event '
-                'against spec/Contract.tla by TLC; distinct_nontrivial counts distinct (driver parameters, build) stages',
+        'distinct_nontrivial': sum((c.get('nontrivial') or 0) for c in confs),
+        'rule': 'one evaluation = one recorded history of the real crate (random, scripted, replayed TLC behaviour, thread trace) validated event by event '
+                'against spec/Contract.tla by TLC, or one generated shape / definition / table row checked against the specification; histories are distinct by '
+                'construction (TLC behaviours are de-duplicated by content hash, random runs have distinct seeds); a history is non-trivial when at least one user '
+                'callback (trace / finalize / drop / action / closure) ran in it, a generated row when it has at least one leaf',
         'events_validated': events,
         'engines': [{'name': e['engine'], 'cfg': e['cfg'], 'states': e.get('states'), 'transitions': e.get('transitions'), 'depth': e.get('depth'),
                      'behaviours': e.get('behaviours'), 'coverage_by_action': e.get('coverage_by_action')} for e in engines],
@@ -219,4 +225,16 @@ CLAIMED['C19'] = {
     'note': 'Cc is !Send, so no legal program shares objects between threads: independence is structural in the specification and the assurance '
             'comes from the conformance runs. Trusted: TLC, harness, tracking allocator.',
 }
+for _p, _what in (('C17', 'the built-in Trace / Finalize impls of containers'), ('C18', 'derive(Trace) / derive(Finalize), including the Drop-conflict rule (compile probes)')):
+    CLAIMED[_p] = {
+        'engine': 'tlc-spec+generated-cases',
+        'technique': 'TLA+ specification of the visit function (TLC enumerates the cases) + generated conformance tests against the real impls',
+        'text': 'spec/Shapes.tla defines, for every container shape / type definition in the enumerated grammar, which leaves one trace (finalize) call must '
+                'visit; TLC enumerates the rows, a generator turns each into a Rust type with probe leaves, and the real per-leaf counts, the reclamation of '
+                'a cycle routed through every leaf position and the never-early rule are compared with the specification: ' + _what + '.',
+        'design_ref': 'DESIGN.md section 8 ' + _p,
+        'note': 'Exhaustive over the generated grammar (tuples 1..12, arrays 0..32, Vec, slices, Box, Option, Result, RefCell borrowed / not, ManuallyDrop, '
+                'AssertUnwindSafe, two-level nestings; struct / enum definitions with ignore masks); this is a per-type property, the specification contributes the '
+                'expected-visit function, not a state space.',
+    }
 NOT_APPLICABLE = {}
